@@ -711,6 +711,11 @@ Proof.
   - pose proof (proj2 (i_lc _ I1 _ _ Heqo2)) as G1. exact G1.
 Qed.
 
+Lemma inv_fresh s c s' : Inv s -> step s (EFresh c) = Some s' -> Inv s'.
+Proof.
+  intros I H. unfold step in H. case_hyp H; inv_some H; local_update I Heqo.
+Qed.
+
 Theorem inv_step s e s' : Inv s -> step s e = Some s' -> Inv s'.
 Proof.
   intros I H. destruct e.
@@ -736,6 +741,7 @@ Proof.
   - eapply inv_rsubmitnext; eauto.
   - eapply inv_rbatchsubmit; eauto.
   - eapply inv_rtransfer; eauto.
+  - eapply inv_fresh; eauto.
 Qed.
 
 Theorem inv_run tr : forall s s', Inv s -> run s tr = Some s' -> Inv s'.
@@ -1027,6 +1033,7 @@ Proof.
   - (* ERTransfer *) case_hyp H.
     all: pose proof (rel_isq s c c0 _ I Heqo Heqo0) as Q.
     all: refine (invg_hand s c c0 _ n _ _ s' _ I G Heqo Heqo0 _ _ _ H); auto.
+  - (* EFresh *) case_hyp H; inv_some H; glocal G Heqo.
 Qed.
 
 Theorem invg_run tr : forall s s', Inv s -> InvG s -> run s tr = Some s' -> InvG s'.
